@@ -110,7 +110,27 @@ pub fn shard_run(tier: &str, seed: u64, replay_case: Option<usize>, shard: Shard
         };
         configs.push((Config { snapshot_days: d, snapshot_versions: v }, if rng.pct(50) { "sweep-versions" } else { "sweep-days" }));
     }
-    let kinds = [Kind::MEM_LIB, Kind::SQL_LIB, Kind::MEM_HTTP, Kind::SQL_HTTP];
+    // configurations given to the real executable on its command line (zero, one, odd, overflowing
+    // and extreme targets): the same planted sweeps, served by the binary
+    let n_lib = configs.len();
+    if crate::net::server_bin().is_some() {
+        let third_v = ((1u64 << 32) / 3) as u32;
+        let third_d = i64::MAX / 3;
+        let mut bin_cfgs: Vec<(i64, u32)> = vec![(14, 0), (0, 4), (0, 0), (1, 1), (2, 3), (i64::MAX, u32::MAX), (third_d + 1, third_v + 1), (15, 101)];
+        if thorough {
+            for _ in 0..24 {
+                bin_cfgs.push((*rng.pick(&day_targets()), *rng.pick(&version_targets())));
+            }
+        }
+        for (d, v) in bin_cfgs {
+            configs.push((Config { snapshot_days: d, snapshot_versions: v }, "sweep-versions"));
+            configs.push((Config { snapshot_days: d, snapshot_versions: v }, "sweep-days"));
+        }
+    } else {
+        out.errors.push("the server executable is not built".into());
+    }
+    let lib_kinds = [Kind::MEM_LIB, Kind::SQL_LIB, Kind::MEM_HTTP, Kind::SQL_HTTP];
+    let bin_kind = [Kind { backend: crate::subject::Backend::Sqlite, entry: crate::subject::Entry::Http, reopen_pct: 0, socket: true, peers: false }];
     let mut conv = Conv { before_ok: true, after_ok: true };
     for (ci, (cfg, sweep)) in configs.iter().enumerate() {
         match replay_case {
@@ -126,8 +146,15 @@ pub fn shard_run(tier: &str, seed: u64, replay_case: Option<usize>, shard: Shard
             }
         }
         out.executed += 1;
-        for kind in kinds {
-            let mut subj = match Subject::new(kind, *cfg) {
+        let binary = ci >= n_lib;
+        let kinds: &[Kind] = if binary { &bin_kind } else { &lib_kinds };
+        for kind in kinds.iter().copied() {
+            if binary {
+                cov.count("configurations_served_by_the_real_executable", 1);
+            }
+            let kname = if binary { "sqlite/http+executable".to_string() } else { kind.name() };
+            let made = if binary { Subject::with_binary(*cfg, None, 0) } else { Subject::new(kind, *cfg) };
+            let mut subj = match made {
                 Ok(s) => s,
                 Err(e) => {
                     out.errors.push(format!("cannot create subject: {e:#}"));
@@ -180,12 +207,12 @@ pub fn shard_run(tier: &str, seed: u64, replay_case: Option<usize>, shard: Shard
                 // a negative elapsed time: "whole days" may be taken by flooring or by truncating
                 // towards zero; both readings are accepted
                 let neg_alt: Option<(Urg, Urg)> = if *age < 0 { Some((spec_urgency(cfg, Some((*age + 1, *since))), spec_urgency(cfg, Some((*age + 1, since.saturating_add(1)))))) } else { None };
-                let case = json!({"origin": "planted", "case": 1_000_000 + ci, "subject": kind.name(), "snapshot_days": cfg.snapshot_days, "snapshot_versions": cfg.snapshot_versions, "age_days": age, "versions_since": since});
+                let case = json!({"origin": "planted", "case": 1_000_000 + ci, "subject": kname.clone(), "snapshot_days": cfg.snapshot_days, "snapshot_versions": cfg.snapshot_versions, "age_days": age, "versions_since": since});
                 match got {
                     Err(e) => {
                         out.found.push(Found {
                             property: "C12".into(),
-                            msg: if e.starts_with("COUNTER") { format!("on {}: {e} (the counter must equal the number of versions accepted since the snapshot was stored)", kind.name()) } else { format!("with targets (days={}, versions={}) and a snapshot aged {age} days with {since} versions since, AddVersion on {} did not succeed: {e}", cfg.snapshot_days, cfg.snapshot_versions, kind.name()) },
+                            msg: if e.starts_with("COUNTER") { format!("on {}: {e} (the counter must equal the number of versions accepted since the snapshot was stored)", kname) } else { format!("with targets (days={}, versions={}) and a snapshot aged {age} days with {since} versions since, AddVersion on {} did not succeed: {e}", cfg.snapshot_days, cfg.snapshot_versions, kname) },
                             signature: format!("C12:computation-fails days={} versions={}", cfg.snapshot_days, cfg.snapshot_versions),
                             replay: case,
                         });
@@ -200,7 +227,7 @@ pub fn shard_run(tier: &str, seed: u64, replay_case: Option<usize>, shard: Shard
                         if pi < base_pts.len() && u == Urg::High && first_high.is_none() {
                             first_high = Some(m);
                         }
-                        cov.hit(format!("plant:{}:{}:{:?}", sweep, class_of(cfg, *sweep), u));
+                        cov.hit(format!("plant{}:{}:{}:{:?}", if binary { "-executable" } else { "" }, sweep, class_of(cfg, *sweep), u));
                         if u != want_before && neg_alt.map(|n| u != n.0).unwrap_or(true) {
                             conv.before_ok = false;
                         }
@@ -212,7 +239,7 @@ pub fn shard_run(tier: &str, seed: u64, replay_case: Option<usize>, shard: Shard
                                 property: "C12".into(),
                                 msg: format!(
                                     "with targets (days={}, versions={}) and a snapshot aged {age} days with {since} versions since, an accepted AddVersion on {} reported urgency {u:?}; the specification gives {want_before:?} (or {want_after:?} if the version being added is counted)",
-                                    cfg.snapshot_days, cfg.snapshot_versions, kind.name()
+                                    cfg.snapshot_days, cfg.snapshot_versions, kname
                                 ),
                                 signature: format!("C12:urgency days={} versions={} age={age} since={since}", cfg.snapshot_days, cfg.snapshot_versions),
                                 replay: case,
@@ -227,7 +254,7 @@ pub fn shard_run(tier: &str, seed: u64, replay_case: Option<usize>, shard: Shard
                                     property: "C12".into(),
                                     msg: format!(
                                         "urgency decreased from {pu:?} at (age days, versions since)={pm:?} to {u:?} at {:?} with targets (days={}, versions={}) on {}",
-                                        (age, since), cfg.snapshot_days, cfg.snapshot_versions, kind.name()
+                                        (age, since), cfg.snapshot_days, cfg.snapshot_versions, kname
                                     ),
                                     signature: format!("C12:non-monotone days={} versions={}", cfg.snapshot_days, cfg.snapshot_versions),
                                     replay: case,
@@ -238,7 +265,7 @@ pub fn shard_run(tier: &str, seed: u64, replay_case: Option<usize>, shard: Shard
                         }
                         prev = Some((u, (*age, *since)));
                         if cov.samples.len() < 3 && pi == 2 {
-                            cov.samples.push(json!({"planted": {"snapshot_days": cfg.snapshot_days, "snapshot_versions": cfg.snapshot_versions, "age_days": age, "versions_since": since, "subject": kind.name()}, "observed_urgency": format!("{u:?}")}));
+                            cov.samples.push(json!({"planted": {"snapshot_days": cfg.snapshot_days, "snapshot_versions": cfg.snapshot_versions, "age_days": age, "versions_since": since, "subject": kname}, "observed_urgency": format!("{u:?}")}));
                         }
                     }
                 }
